@@ -69,6 +69,7 @@ class Path:
         self.apps = {}  # kind -> [(result var, argument term(s))] of contract-modelled functions
         self.keep = []  # keeps z3 terms alive whose ids are used as keys
         self.solver = None
+        self.recip = False  # polynomial mode for division (reciprocal variables)
         self.witness = None  # concolic witness: a model of the current constraints
         self._nsolver = 0
 
@@ -198,7 +199,7 @@ class UnwindingFailure(Exception):
     """Exploration was cut by a bound: nothing may be claimed."""
 
 
-def explore(fn, max_paths=256, max_depth=64, branch_timeout_ms=5000, catch=(Exception,)):
+def explore(fn, max_paths=256, max_depth=64, branch_timeout_ms=5000, catch=(Exception,), recip=False):
     """Run fn() on every feasible path.  fn builds its own symbolic inputs
     (deterministic names), returns any value.  Returns list[PathResult]."""
     results = []
@@ -208,6 +209,7 @@ def explore(fn, max_paths=256, max_depth=64, branch_timeout_ms=5000, catch=(Exce
         if len(results) >= max_paths:
             raise UnwindingFailure(f"more than {max_paths} paths")
         p = Path(prefix, branch_timeout_ms)
+        p.recip = recip
         _CUR[0] = p
         try:
             try:
@@ -234,8 +236,9 @@ class single_path:
     """Context manager: straight-line symbolic execution (branching is an error
     unless the condition simplifies to a constant or is forced)."""
 
-    def __init__(self, branch_timeout_ms=5000):
+    def __init__(self, branch_timeout_ms=5000, recip=False):
         self.p = Path((), branch_timeout_ms)
+        self.p.recip = recip
 
     def __enter__(self):
         self.prev = _CUR[0]
@@ -451,7 +454,17 @@ class SReal:
             if b_s.numerator_as_long() == 0:
                 raise ZeroDivisionError("symbolic division by literal zero")
             return a / b_s
-        cur().domain.append(b != 0)
+        p = cur()
+        p.domain.append(b != 0)
+        if p.recip:
+            # polynomial mode: a/b := a * ib with the contract ib * b = 1 (one reciprocal variable per divisor term)
+            key = ("recip", b_s.get_id())
+            if key not in p.trig:
+                ib = p.new("inv")
+                p.assume(ib * b == 1)
+                p.trig[key] = ib
+                p.keep.append(b_s)
+            return a * p.trig[key]
         return a / b
 
     def __truediv__(self, o):
